@@ -175,6 +175,10 @@ def main(argv=None):
         elif o["status"] in ("unknown", "failed-weak"):
             # no verdict from the solver on the full VC and no native failing input: undecided, never a violation
             undecided.append((uname, f"obligation {o['name']} [path {o['path']}]: solver {o['status']}, replay found no failing input"))
+        elif in_lock and o.get("kind") == "invariant":
+            # a loop invariant / loop side condition is a proof artefact, not a statement of the property: when it stops holding and no failing input
+            # exists natively, the contract may simply not follow a restructured loop -> undecided, not a violation
+            undecided.append((uname, f"loop invariant {o['name']} no longer holds and the native replay found no failing input (contract cannot follow the loop as written?)"))
         elif in_lock:
             vio_lines.append(f"VIOLATION property={pid} replay={rp} no-failing-input-found")
         else:
